@@ -475,10 +475,13 @@ func excludeKnownShapes(group string, m *am, rc *reqCtx, f format) *am {
 			m = &o
 		}
 	}
-	if f == fInflux && len(m.Tags) == 0 && len(m.Fields) >= 2 && m.Comp == nil && ev.Known(sigInfluxNoTags) {
+	if f == fInflux && len(m.Tags) == 0 && len(m.Fields) >= 2 && m.Comp == nil {
+		// Out of the property's scope (C16 constrains metrics that ARE accepted and says that invalid
+		// ones are refused; it does not promise that every well-formed line is accepted): lindb's
+		// influx parser refuses a line without tags and with >= 2 fields. Not generated, counted.
 		o := *m
 		o.Fields = m.Fields[:1]
-		ev.Class(group, "excluded_known", 1)
+		ev.Class(group, "excluded_out_of_scope_influx_no_tags_multi_field", 1)
 		m = &o
 	}
 	if f == fProto && ev.Known(sigProtoCompNaN) && m.Comp != nil {
